@@ -366,9 +366,9 @@ pub fn run(cx: &mut Ctx) {
     cx.assume("attributes are scalar f32 smuggled bit-exactly through the colour word; colour varyings are affine by design and not asserted here (DESIGN D-e)");
     cx.assume("possible internal fan edges are masked with every diagonal of the exact clipped polygon (a superset of any fan), within 0.02 px");
     let (md, mt) = (cx.tier.pick(64, 128), cx.tier.pick(4, 8));
-    let n = cx.n(24_000, 1_000_000);
+    let n = cx.n(200_000, 2_000_000);
     cx.prop_check("clip-space", n, move || clip_scene(md, mt, true), |c, obs| check(c, obs));
-    let n = cx.n(8_000, 300_000);
+    let n = cx.n(60_000, 600_000);
     cx.prop_check("camera", n, move || camera_scene(md, mt, true), |c, obs| check(c, obs));
 }
 
